@@ -39,13 +39,13 @@ class C02(Check):
                 "simulation states, protocols, gates, classical data store, condition resolution",
         "stub": "the pseudo-random generator passed as seed= (ScriptedPRNG); QRef is the oracle",
     }
-    tiers = {"quick": {"runs": 5000, "wall": 85}, "thorough": {"runs": 600000, "wall": 1200}}
+    tiers = {"quick": {"runs": 8000, "wall": 85}, "thorough": {"runs": 600000, "wall": 1200}}
     per_run_timeout = 240
     expected_probes = ["path:terminal-fast", "path:per-repetition", "feat:confusion", "feat:invert+confusion",
                        "feat:repeated-key", "feat:qudit-measure", "feat:classical-control", "feat:sympy-condition",
                        "feat:bitmask-condition", "feat:indexed-condition", "feat:pauli-measure", "feat:reset",
                        "sim:sv", "sim:dm", "sim:clifford", "sim:stab-sampler", "entry:run", "entry:simulate",
-                       "entry:steps", "entry:sample", "entry:run_sweep", "entry:sweep-from-state", "init:vector", "init:int", "order:permuted", "order:spectator"]
+                       "entry:steps", "entry:sample", "entry:run_sweep", "entry:sweep-from-state", "gen:deep-clifford", "init:vector", "init:int", "order:permuted", "order:spectator"]
 
     def setup(self) -> None:
         from simkit import repoenv
@@ -62,10 +62,20 @@ class C02(Check):
         if tape.chance(1, 12, "sweep-from-state?"):
             return self._sweep_from_state(tape, ctx)
         clifford = tape.chance(1, 5, "clifford-circuit?")
+        deep_clifford = clifford and tape.chance(1, 2, "deep-clifford?")
         g = qgen.Gen(tape, clifford_only=clifford, allow_channels=False, allow_qudits=not clifford,
-                     leaf_bits_cap=8.0, max_ops=11)
+                     leaf_bits_cap=(5.0 if deep_clifford else 8.0), max_ops=(36 if deep_clifford else 11))
         circuit = g.circuit()
-        tail = tape.weighted([4, 3, 2], "tail")
+        if deep_clifford:
+            # long entangling Clifford history, then every qubit measured separately: after the first
+            # (random) outcomes the remaining ones are determined by products of several tableau rows
+            ctx.probe("gen:deep-clifford")
+            for i in tape.shuffle(list(range(len(g.qudits))), "final-order"):
+                if g.leaf_bits + 1 > 8:
+                    break
+                g.leaf_bits += 1
+                circuit.append(cirq.measure(g.qudits[i], key=f"z{i}"), strategy=cirq.InsertStrategy.NEW)
+        tail = tape.weighted([4, 3, 2], "tail") if not deep_clifford else 0
         if tail == 1 or not any(cirq.is_measurement(op) for op in circuit.all_operations()):
             # a terminal measurement layer
             rest = [q for q in g.qudits]
@@ -95,7 +105,7 @@ class C02(Check):
         reps = 1 + tape.draw(min(3, max_reps), "reps")
         # simulator configuration
         if clifford:
-            kind = ["clifford", "stab-sampler", "sv", "dm"][tape.weighted([3, 2, 1, 1], "sim-kind")]
+            kind = ["clifford", "stab-sampler", "sv", "dm"][tape.weighted([3, 3, 1, 1], "sim-kind")]
         else:
             kind = ["sv", "dm"][tape.weighted([3, 2], "sim-kind")]
         dtype = np.complex128 if tape.chance(1, 3, "dtype128?") else np.complex64
